@@ -1,6 +1,8 @@
 """C14 — mapping engine: exhaustive single steps + random event/time/tick sequences"""
 from .common import ident
 
+from . import auto
+
 PROP = 'C14'
 PREDICATE = 'C14'
 LEAN_TARGETS = ['LLTD.Props.C14']
@@ -59,6 +61,9 @@ def cases(rng, tier, X):
     n = 300 if tier == 'quick' else 20000
     for k in range(n):
         out.append(('seq%d' % k, sequence(rng, rng.randint(5, 60))))
+    # universal automata schedule (all public calls, missing objects, near-colliding keys, bridged frames, every deadline): this check's predicate on it
+    for k in range(60 if tier == 'quick' else 6000):
+        out.append(('au%d' % k, auto.schedule(rng)))
     return out
 
 
